@@ -88,6 +88,10 @@ def cases(tier, seed=0):
         import jax.numpy as jnp
         return jnp.array(idx)
 
+    def jnp_ones(n):
+        import jax.numpy as jnp
+        return jnp.ones((n,))
+
     # ------------------------------------------------------------------ factors / measures / densities: unary
     for kind in ("conjugate", "onerank", "linear", "constant", "measure", "diagmeasure", "pdf", "diagpdf"):
         for R in (2, 3):
@@ -111,6 +115,19 @@ def cases(tier, seed=0):
                     rhs.update({"logint": fs.log_integral(), "Ex": fs.integrate("x"), "Exx": fs.integrate("xx'"),
                                 "lin": fs.integrate("(Ax+a)", A_mat=fs.Lambda, a_vec=fs.nu),
                                 "quad": fs.integrate("(Ax+a)'(Bx+b)", A_mat=fs.Lambda, b_vec=fs.nu)})
+                if kind in ("measure", "diagmeasure", "pdf", "diagpdf"):
+                    # expected log-factor with a batch of factors paired with the measure's components (and one shared factor)
+                    from gaussian_toolbox import factor as _fm
+                    def lf(o, sl=None):
+                        take = (lambda a: a) if sl is None else (lambda a: a[J(sl)])
+                        g = _fm.ConjugateFactor(Lambda=take(f.Lambda) + 1.0, nu=take(f.nu) * 2.0 + 1.0, ln_beta=take(f.ln_beta) - 1.0)
+                        g1 = _fm.OneRankFactor(v=take(f.nu), g=jnp_ones(take(f.nu).shape[0]) * 0.5, nu=take(f.nu), ln_beta=take(f.ln_beta))
+                        g2 = _fm.LinearFactor(nu=take(f.nu) - 1.0, ln_beta=take(f.ln_beta))
+                        gs = _fm.ConjugateFactor(Lambda=f.Lambda[:1] * 2.0, nu=f.nu[-1:], ln_beta=f.ln_beta[:1])
+                        return {"logfac_paired": o.integrate("log u(x)", factor=g), "logfac_onerank": o.integrate("log u(x)", factor=g1),
+                                "logfac_linear": o.integrate("log u(x)", factor=g2), "logfac_shared": o.integrate("log u(x)", factor=gs)}
+                    ll, lr = lf(f), lf(fs, idx)
+                    lhs.update({k: v[J(idx)] for k, v in ll.items()}); rhs.update(lr)
                 if kind in ("measure", "pdf") and R == 2:
                     def hi(o):
                         # third / fourth order integrals with PER-COMPONENT coefficients taken from the object's own fields
@@ -131,40 +148,56 @@ def cases(tier, seed=0):
             out.append(scenario_case(f"unary/{kind}/R{R}", declare, run, idxs, dict(op="evaluate/slice/integrals", kind=kind, R=R, D=D)))
 
     # ------------------------------------------------------------------ products
+    def mk_u(A, ukind):
+        """measure operand: fresh (no covariance cached), after a read-only query (covariance cached), or a density"""
+        if ukind == "pdf":
+            return make_factor("pdf", "u_", A, D)
+        u = make_factor("measure", "u_", A, D)
+        if ukind == "queried":
+            u.integrate("x")
+        return u
+
     for fk in ("conjugate", "onerank", "linear", "constant", "pdf"):
+      for ukind in ("cold", "queried", "pdf"):
         for uf in (False, True):
+            if ukind != "cold" and not uf:
+                continue
             R1, R2 = 2, 3
             idx1s = idx_set(R1, "quick")[:4] if tier == "quick" else idx_set(R1, "quick")
             idx2s = idx_set(R2, "quick")[2:6] if tier == "quick" else idx_set(R2, "quick")
             pairs = list(zip(idx1s, idx2s))
+            utag = "" if ukind == "cold" else f"/u-{ukind}"
 
-            def declare(b, fk=fk):
-                declare_factor(b, "measure", "u_", R1, D); declare_factor(b, fk, "f_", R2, D); b.free("x", (1, D))
+            def declare(b, fk=fk, ukind=ukind):
+                declare_factor(b, "pdf" if ukind == "pdf" else "measure", "u_", R1, D); declare_factor(b, fk, "f_", R2, D); b.free("x", (1, D))
 
-            def run(A, pair, fk=fk, uf=uf):
+            def run(A, pair, fk=fk, uf=uf, ukind=ukind):
                 i1, i2 = pair
-                u = make_factor("measure", "u_", A, D); f = make_factor(fk, "f_", A, D)
+                u = mk_u(A, ukind); f = make_factor(fk, "f_", A, D)
                 r = u.multiply(f, update_full=uf)
                 idxp = [a * R2 + c for a in norm(i1, R1) for c in norm(i2, R2)]
-                rs = u.slice(J(i1)).multiply(f.slice(J(i2)), update_full=uf)
+                rs = mk_u(A, ukind).slice(J(i1)).multiply(f.slice(J(i2)), update_full=uf)
                 x = A["x"]
-                return ({"obj": _obj(r.slice(J(idxp))), "eval": r.evaluate_ln(x)[J(idxp)], "logint": r.log_integral()[J(idxp)]},
-                        {"obj": _obj(rs), "eval": rs.evaluate_ln(x), "logint": rs.log_integral()})
-            out.append(scenario_case(f"multiply/{fk}/uf{int(uf)}", declare, run, pairs, dict(op="multiply", factor=fk, update_full=uf, layout="i*R2+j", R1=R1, R2=R2)))
+                return ({"obj": _obj(r.slice(J(idxp))), "eval": r.evaluate_ln(x)[J(idxp)], "logint": r.log_integral()[J(idxp)], "Ex": r.integrate("x")[J(idxp)]},
+                        {"obj": _obj(rs), "eval": rs.evaluate_ln(x), "logint": rs.log_integral(), "Ex": rs.integrate("x")})
+            out.append(scenario_case(f"multiply/{fk}/uf{int(uf)}{utag}", declare, run, pairs, dict(op="multiply", factor=fk, update_full=uf, operand=ukind, layout="i*R2+j", R1=R1, R2=R2)))
+            if ukind == "pdf":
+                continue
             for (Ra, Rb) in ((3, 3), (3, 1), (1, 3)):
                 idxs = idx_set(3, "quick")[:5]
 
                 def declare(b, fk=fk, Ra=Ra, Rb=Rb):
                     declare_factor(b, "measure", "u_", Ra, D); declare_factor(b, fk, "f_", Rb, D); b.free("x", (1, D))
 
-                def run(A, idx, fk=fk, uf=uf, Ra=Ra, Rb=Rb):
-                    u = make_factor("measure", "u_", A, D); f = make_factor(fk, "f_", A, D)
+                def run(A, idx, fk=fk, uf=uf, Ra=Ra, Rb=Rb, ukind=ukind):
+                    u = mk_u(A, ukind); f = make_factor(fk, "f_", A, D)
                     r = u.hadamard(f, update_full=uf)
-                    rs = (u.slice(J(idx)) if Ra > 1 else u).hadamard(f.slice(J(idx)) if Rb > 1 else f, update_full=uf)
+                    u2 = mk_u(A, ukind)
+                    rs = (u2.slice(J(idx)) if Ra > 1 else u2).hadamard(f.slice(J(idx)) if Rb > 1 else f, update_full=uf)
                     x = A["x"]
                     return ({"obj": _obj(r.slice(J(idx))), "eval": r.evaluate_ln(x)[J(idx)], "logint": r.log_integral()[J(idx)]},
                             {"obj": _obj(rs), "eval": rs.evaluate_ln(x), "logint": rs.log_integral()})
-                out.append(scenario_case(f"hadamard/{fk}/uf{int(uf)}/R{Ra}x{Rb}", declare, run, idxs, dict(op="hadamard", factor=fk, update_full=uf, R1=Ra, R2=Rb)))
+                out.append(scenario_case(f"hadamard/{fk}/uf{int(uf)}/R{Ra}x{Rb}{utag}", declare, run, idxs, dict(op="hadamard", factor=fk, update_full=uf, operand=ukind, R1=Ra, R2=Rb)))
 
     # ------------------------------------------------------------------ density operations producing conditionals / images
     R = 3
